@@ -28,7 +28,7 @@ META = {
                     'programs the oracle is the generating spec'],
     'shards': {'quick': 8, 'thorough': 16},
     'quotas': {
-        'quick': {'layout:single': 50, 'layout:ordered-split': 50, 'layout:repeated': 30, 'layout:nested': 30,
+        'quick': {'class:failed-compilation-of-the-same-path-before': 100, 'layout:single': 50, 'layout:ordered-split': 50, 'layout:repeated': 30, 'layout:nested': 30,
                   'layout:arbitrary-split': 30, 'corelang-roundtrips': 2, 'ttc:composite': 50, 'expr:collect': 100,
                   'expr:union': 20, 'expr:intersection': 20, 'expr:difference': 20, 'expr:subType': 20,
                   'expr:transitive': 20, 'expr:variable': 20, 'expr:reassociated': 20, 'via-from_mal_spec': 30, 'class:field-named-like-a-step': 30},
@@ -137,14 +137,37 @@ def norm_unordered(spec):
     return s
 
 
-def compile_files(files, root, via_graph=False):
+def compile_files(files, root, via_graph=False, broken_first=None, res=None):
     from maltoolbox.language.compiler import MalCompiler
     from maltoolbox.language import LanguageGraph
     d = tempfile.mkdtemp(prefix='c04-', dir=os.getcwd())
     try:
         for n, t in files.items():
-            with open(os.path.join(d, n), 'w', encoding='utf-8') as f:
+            with open(os.path.join(d, n), 'w', encoding='utf-8', newline='') as f:
                 f.write(t)
+        if broken_first is not None:
+            # the edit / compile / fix / compile session: one file first holds a typo (the compilation fails, or not -
+            # that is C17's business), then the file is corrected at the same path and the program compiled again
+            import random
+            brng = random.Random(broken_first)
+            victim = brng.choice(sorted(files))
+            text = files[victim]
+            cut = brng.randrange(max(1, len(text) // 2), max(2, len(text)))
+            broken = text[:cut] + brng.choice(['$', ' } } ', ' asset { ', '"'])
+            with open(os.path.join(d, victim), 'w', encoding='utf-8', newline='') as f:
+                f.write(broken)
+            shared = MalCompiler()
+            for _ in range(brng.choice([1, 1, 3])):
+                try:
+                    if via_graph:
+                        LanguageGraph.from_mal_spec(os.path.join(d, root))
+                    else:
+                        (shared if brng.random() < 0.5 else MalCompiler()).compile(os.path.join(d, root))
+                except Exception:
+                    if res is not None:
+                        res.count('class:failed-compilation-of-the-same-path-before')
+            with open(os.path.join(d, victim), 'w', encoding='utf-8', newline='') as f:
+                f.write(text)
         if via_graph:
             return LanguageGraph.from_mal_spec(os.path.join(d, root))._lang_spec
         return MalCompiler().compile(os.path.join(d, root))
@@ -172,7 +195,7 @@ def _check_case(case, res, count=True):
         return None
     case['files'] = files
     try:
-        out = compile_files(files, root, via_graph=case.get('via_graph', False))
+        out = compile_files(files, root, via_graph=case.get('via_graph', False), broken_first=case.get('broken_first'), res=res if count else None)
     except Exception as exc:
         return ('compiler:raised-%s' % type(exc).__name__, 'compiling a well-formed program (%s layout) raised %r' % (case['kind'], exc))
     if count:
@@ -233,7 +256,8 @@ def run(rng, res, tier, shard, nshards):
             cfg.same_sig_dups, cfg.dup_assoc_names = 0.6, 0.5      # associations that differ in their fields only
         spec = hostile_spec(rng, gen_language(rng, cfg), res)
         kind = rng.choice(KINDS)
-        case = {'spec': spec, 'kind': kind, 'layout_seed': rng.randrange(10 ** 9), 'via_graph': rng.random() < 0.15}
+        case = {'spec': spec, 'kind': kind, 'layout_seed': rng.randrange(10 ** 9), 'via_graph': rng.random() < 0.15,
+                'broken_first': rng.randrange(10 ** 9) if rng.random() < 0.25 else None}
         if not case['via_graph'] and rng.random() < 0.15 and clash_names(rng, spec):
             res.count('class:field-named-like-a-step')
         nt = count_kinds(spec, res)
